@@ -852,7 +852,10 @@ def _strict_update(m, f, w, u, var, kind, bound, iv, facts, consts):
         biv = guards.interval_of(facts, b_text, consts)
         bc = guards.const_number(rhs, consts)
         b_ok = (bc is not None and bc >= 2) or biv.ge(2)
-        v_ok = iv.ge(0)
+        # under  while v > c (c >= 0)  /  while v >= c (c >= 1)  the loop condition itself keeps v positive in the body
+        from fractions import Fraction
+        cond_pos = isinstance(bound, (int, float, Fraction)) and ((kind == 'gt' and bound >= 0) or (kind == 'ge' and bound >= 1))
+        v_ok = iv.ge(0) or cond_pos
         if kind not in ('truthy', 'gt', 'ne', 'ge'):
             return None, ''
         if b_ok and v_ok:
